@@ -59,6 +59,10 @@ impl PTree {
     /// `F t start`
     pub fn text(&self, out: &mut Vec<String>) {
         match self {
+            // a leaf whose extent is not what the lexer handed out (a real lexeme is TOKLEN bytes long, an
+            // inserted one zero bytes) is tagged `X`/`Y` (same fields): consumers report it
+            PTree::Leaf(t, st, len, false) if *len != TOKLEN => out.push(format!("Y {} {}", t, st / STRIDE)),
+            PTree::Leaf(t, st, len, true) if *len != 0 => out.push(format!("X {} {}", t, st)),
             PTree::Leaf(t, st, _, false) => out.push(format!("L {} {}", t, st / STRIDE)),
             PTree::Leaf(t, st, _, true) => out.push(format!("F {} {}", t, st)),
             PTree::Node(p, kids) => {
